@@ -9,6 +9,9 @@ import ParryModel.C12.Theorems7
 import ParryModel.C12.Theorems8
 import ParryModel.C12.Theorems9
 import ParryModel.C12.Theorems10
+import ParryModel.C12.Theorems11
+import ParryModel.C12.Theorems12
+import ParryModel.C12.Theorems13
 import Mathlib.Analysis.Real.Sqrt
 /-!
 # C12 theorems (first pass): the argmax primitive of the hull algorithms, and certificate soundness.
